@@ -6,6 +6,7 @@ import (
 	"errors"
 	"fmt"
 	"math"
+	"sort"
 	"time"
 
 	"0chain.net/core/config"
@@ -607,8 +608,13 @@ func (c *Chain) updateState(ctx context.Context,
 		ue[u.UserID] = u
 	}
 
-	for _, e := range ue {
-		c.emitUserEvent(sctx, e)
+	ueIDs := make([]string, 0, len(ue))
+	for id := range ue {
+		ueIDs = append(ueIDs, id)
+	}
+	sort.Strings(ueIDs)
+	for _, id := range ueIDs {
+		c.emitUserEvent(sctx, ue[id])
 	}
 
 	// commit transaction
